@@ -430,6 +430,9 @@ pub struct Gui<'a> {
     pub blame_idle: (&'static str, &'static str),
     /// per search: (root FEN, last reported score as text, bestmove)
     pub summaries: Vec<(String, String, String)>,
+    /// a `position` line reached the engine while it was searching: what it holds afterwards is not
+    /// specified (the shipped code ignores it) until the next position command given while idle
+    pub cur_uncertain: bool,
 }
 
 fn fail_to_violation(f: Fail, focus_prop: &str, context: &str) -> V {
@@ -454,7 +457,7 @@ fn panic_site(msg: &str) -> String {
 impl<'a> Gui<'a> {
     pub fn start(knobs: &Knobs, focus: &str, res: &'a mut RunResult) -> Result<Gui<'a>, V> {
         let sess = Session::start(knobs).map_err(|f| fail_to_violation(f, "C07", "engine start-up"))?;
-        let mut g = Gui { sess, cur: CurPos::startpos(), res, log: Fnv::default(), shape: Fnv::default(), knobs: knobs.clone(), last_best: None, focus: focus.to_string(), clock_ns: 1_000_000_000_000, debug_on: false, blame_idle: ("C09", "engine_position_changed"), summaries: Vec::new() };
+        let mut g = Gui { sess, cur: CurPos::startpos(), res, log: Fnv::default(), shape: Fnv::default(), knobs: knobs.clone(), last_best: None, focus: focus.to_string(), clock_ns: 1_000_000_000_000, debug_on: false, blame_idle: ("C09", "engine_position_changed"), summaries: Vec::new(), cur_uncertain: false };
         g.absorb_events(None)?;
         Ok(g)
     }
@@ -503,7 +506,7 @@ impl<'a> Gui<'a> {
                         w.idle_fen = Some(f.clone());
                     }
                     let want = self.cur.root().to_fen();
-                    if f != want {
+                    if f != want && !self.cur_uncertain {
                         return Err(viol(self.blame_idle.0, self.blame_idle.1, format!("search thread idles on {} but the last accepted position is {}", f, want)));
                     }
                 }
@@ -543,6 +546,10 @@ impl<'a> Gui<'a> {
                         Some(cp) => {
                             if idle {
                                 self.cur = cp;
+                                self.cur_uncertain = false;
+                            } else {
+                                self.cur_uncertain = true;
+                                self.res.bump("fault.position_command_during_search");
                             }
                         }
                         None => self.res.bump("fault.position_with_illegal_move_rejected"),
@@ -617,6 +624,11 @@ impl<'a> Gui<'a> {
         self.shape.write_str("cycle");
         if c.newgame {
             self.idle_line("ucinewgame")?;
+        }
+        if self.cur_uncertain && matches!(c.pos, PosSpec::Keep | PosSpec::Follow { .. } | PosSpec::Broken { .. }) {
+            // the model does not know what the engine holds: the GUI sends the position again
+            let line = self.cur.render();
+            self.idle_line(&line)?;
         }
         match &c.pos {
             PosSpec::Keep => {}
@@ -817,6 +829,7 @@ impl<'a> Gui<'a> {
     }
 
     fn judge_window(&mut self, root: &Pos, rg: &RefGo, c: &Cycle, win: &SearchWindow) -> Result<(), V> {
+        let _ = &self.cur_uncertain; // the search itself started from a known position (root)
         let ctx = format!("position {} go [{}]", root.to_fen(), uciref::render_go(rg, &mut Rng::new(1)));
         if win.bestmove_count != 1 {
             return Err(viol("C07", if win.bestmove_count == 0 { "no_bestmove" } else { "more_than_one_bestmove" }, format!("{}: {} bestmove lines", ctx, win.bestmove_count)));
@@ -1170,6 +1183,36 @@ fn corrupt_noise(rng: &mut Rng) -> String {
 fn broken_position(rng: &mut Rng, cur: &CurPos) -> String {
     // either an illegal move inside an otherwise fine list, or a corrupted line with a definite MustErr
     let mut moves = cur.moves.clone();
+    if rng.chance(1, 3) {
+        // the same game continued: all moves already set up, k new legal ones, then a bad one
+        let mut line = cur.line.clone();
+        for _ in 0..1 + rng.below(3) {
+            let p = line.last().unwrap().clone();
+            let mut legal = p.legal_moves();
+            if legal.is_empty() {
+                break;
+            }
+            legal.sort_by_key(|m| m.uci());
+            let m = *rng.pick(&legal);
+            moves.push(m.uci());
+            line.push(p.apply(&m));
+        }
+        let bad = rng.pick(&["e1e8", "a1a1", "e7e8k", "h9h8", "b1b3", "a7a8q"]).to_string();
+        let ill = Mv::parse(&bad).map_or(true, |m| !line.last().unwrap().legal_moves().contains(&m));
+        if ill && moves.len() > cur.moves.len() {
+            moves.push(bad);
+            let mut s = match &cur.fen {
+                None => "position startpos".to_string(),
+                Some(f) => format!("position fen {}", f),
+            };
+            s.push_str(" moves ");
+            s.push_str(&moves.join(" "));
+            if uciref::expect(&s) != Expect::Unspecified {
+                return s;
+            }
+        }
+        moves = cur.moves.clone();
+    }
     if rng.chance(1, 2) {
         let j = rng.usize_below(moves.len() + 1);
         let bad = rng.pick(&["e1e8", "a1a1", "e7e8k", "h9h8", "e2e5", "b1b3", "a7a8q", "e1g1"]).to_string();
@@ -1302,6 +1345,12 @@ pub fn gen_plan(focus: &str, seed: u64, thorough: bool, pool: &[Pos]) -> EngineP
                 let at = rng.below(50_000);
                 let delta = *rng.pick(&[1_000_000i64, 1_000_000_000, 3_600_000_000_000, -1_000_000, -5_000_000_000]);
                 jumps.push((at, delta));
+            }
+            if rng.chance(1, 10) {
+                // a GUI that (against the protocol) sends a position while the engine searches
+                let g = random_game(&mut rng, pool, 6, false);
+                let at = *rng.pick(&[0u64, 600, 2000, 9000]);
+                events.push(Ev { at_node: at + rng.below(300), lines: vec![g.render()] });
             }
             if rng.chance(1, 3) {
                 for _ in 0..1 + rng.below(3) {
